@@ -393,6 +393,45 @@ def check_heap_scheduler(src: Source, rep: Report, unit: CUnit) -> None:
            guards[0].test if guards else "push_event",
            f"infinite candidate times must not enter the heap (and only those): with a finite time an insert is "
            f"{'reached' if fin else 'not certainly reached'}, with an infinite time an insert is {'excluded' if inf_ is False else 'possible'}")
+    # R6.9 the byte count that push_event compares the C return value with belongs to the C heap object: whenever a method builds a
+    # new heap it must restart that count from what the new heap reports (0 before the first insert, else the last insert's return)
+    bytes_attr = None
+    for n in ast.walk(push):
+        if isinstance(n, ast.Compare) and len(n.ops) == 1:
+            sides = [n.left, n.comparators[0]]
+            names = {x.id for sd in sides for x in ast.walk(sd) if isinstance(x, ast.Name)}
+            ins_vars = {t.id for a in ast.walk(push) if isinstance(a, ast.Assign) and _lib_calls(a.value, aliases, "insert")
+                        for t in a.targets if isinstance(t, ast.Name)}
+            attrs_ = [self_attr(sd) for sd in sides if self_attr(sd)]
+            if names & ins_vars and attrs_:
+                bytes_attr = attrs_[0]
+    heap_attr = self_attr(inserts[0].args[0]) if inserts and inserts[0].args else None
+    if bytes_attr and heap_attr:
+        for mname, m in M.items():
+            builds = [a for a in ast.walk(m) if isinstance(a, ast.Assign) and self_attr(a.targets[0]) == heap_attr]
+            if not builds:
+                continue
+            later_inserts = [c for c in _lib_calls(m, aliases, "insert") if c.lineno >= builds[0].lineno]
+            sets = [a for a in ast.walk(m) if isinstance(a, ast.Assign) and self_attr(a.targets[0]) == bytes_attr and a.lineno >= builds[0].lineno]
+            ok = False
+            why = f"`{bytes_attr}` is not restarted after the new C heap is built"
+            if sets:
+                v = sets[-1].value
+                if isinstance(v, ast.Constant) and v.value == 0:
+                    ok = not later_inserts
+                    why = "restarted at 0 although entries are inserted into the new heap afterwards"
+                elif isinstance(v, ast.Name):
+                    defs = [a.value for a in ast.walk(m) if isinstance(a, ast.Assign) and any(isinstance(t, ast.Name) and t.id == v.id for t in a.targets)]
+                    ok = bool(defs) and all((isinstance(d, ast.Constant) and d.value == 0) or _lib_calls(d, aliases, "insert") for d in defs) \
+                        and (not later_inserts or any(_lib_calls(d, aliases, "insert") for d in defs))
+                    why = f"restarted from `{v.id}`, which is not (only) the size reported by the inserts into the new heap"
+                elif isinstance(v, ast.Call) and (_lib_calls(v, aliases, "estimated_size") or _lib_calls(v, aliases, "insert")):
+                    ok = True
+            rep.ob("R6.9-allocated-bytes-follow-the-heap", ok, Loc(HEAP_PY, builds[0].lineno, f"{cls.name}.{mname}"),
+                   f"{mname}: new C heap, {bytes_attr} restarted",
+                   f"push_event treats a C return value smaller than `{bytes_attr}` as a failed reallocation; a method that builds a "
+                   f"fresh C heap must restart that count from the new heap, otherwise a heap rebuilt smaller than the old one (after "
+                   f"growth, lazy deletion and a dump) makes the next push raise MemoryError: {why}")
     # R6.4 overflow branch
     for t in handlers_try:
         for h in t.handlers:
@@ -782,6 +821,7 @@ def analyse(src: Source) -> List[Report]:
            "i + 1 < length, otherwise pickling loses or invents heap entries")
     rep.expect_min("R6.2-index-in-bounds", 14)
     rep.expect_min("R6.2-invariant-restored", 8)
+    rep.expect_min("R6.9-allocated-bytes-follow-the-heap", 2)
     check_delete_events(unit, rep)
     check_cdef(src, unit, rep)
     check_heap_scheduler(src, rep, unit)
